@@ -1,0 +1,138 @@
+//go:build verif
+
+package mcp
+
+import (
+	"context"
+	"io"
+	"sync/atomic"
+	"time"
+
+	"trpc.group/trpc-go/trpc-mcp-go/internal/retry"
+	"trpc.group/trpc-go/trpc-mcp-go/internal/sseutil"
+)
+
+// VerifHookFunc receives an instrumentation point name and values in scope at the
+// point. The installed function may block: it doubles as a scheduler gate.
+type VerifHookFunc func(point string, kv ...interface{})
+
+var verifHook atomic.Value // of VerifHookFunc
+
+// VerifSetHook installs (or, with nil, removes) the process-wide hook.
+func VerifSetHook(f VerifHookFunc) {
+	verifHook.Store(f)
+	if f == nil {
+		sseutil.VerifHook = nil
+	} else {
+		sseutil.VerifHook = func(point string, kv ...interface{}) { verifEvent(point, kv...) }
+	}
+}
+
+func verifEvent(point string, kv ...interface{}) {
+	if f, _ := verifHook.Load().(VerifHookFunc); f != nil {
+		f(point, kv...)
+	}
+}
+
+// VerifServeStdio runs the stdio server loop over caller supplied streams.
+func VerifServeStdio(ctx context.Context, s *StdioServer, in io.Reader, out io.Writer) error {
+	t := newStdioTransport(s.internal, withStdioErrorLogger(s.logger), withStdioContextFunc(s.contextFunc))
+	return t.listen(ctx, in, out)
+}
+
+// VerifPendingServerRequests returns the number of pending server->client requests.
+func VerifPendingServerRequests(server interface{}) int {
+	switch s := server.(type) {
+	case *Server:
+		rm := s.httpHandler.responseManager
+		rm.mutex.RLock()
+		defer rm.mutex.RUnlock()
+		return len(rm.pendingRequests)
+	case *SSEServer:
+		s.responsesMu.RLock()
+		defer s.responsesMu.RUnlock()
+		return len(s.responses)
+	case *StdioServer:
+		s.responsesMu.RLock()
+		defer s.responsesMu.RUnlock()
+		return len(s.responses)
+	}
+	return -1
+}
+
+// VerifGetStreamCount returns the number of registered listening (GET) streams.
+func VerifGetStreamCount(s *Server) int {
+	h := s.httpHandler
+	h.getSSEConnectionsLock.RLock()
+	defer h.getSSEConnectionsLock.RUnlock()
+	return len(h.getSSEConnections)
+}
+
+// VerifClientPending returns the number of entries in a client's pending-call table
+// (-1 when the transport keeps none).
+func VerifClientPending(client interface{}) int {
+	switch c := client.(type) {
+	case *Client:
+		if t, ok := c.transport.(*sseClientTransport); ok {
+			t.responsesMu.RLock()
+			defer t.responsesMu.RUnlock()
+			return len(t.responses)
+		}
+		return -1
+	case *StdioClient:
+		c.transport.pendingMutex.RLock()
+		defer c.transport.pendingMutex.RUnlock()
+		return len(c.transport.pendingRequests)
+	}
+	return -1
+}
+
+// VerifSetNextRequestID positions a client's request id counter so that the next
+// request uses id n.
+func VerifSetNextRequestID(client interface{}, n int64) {
+	switch c := client.(type) {
+	case *Client:
+		c.requestID.Store(n - 1)
+	case *StdioClient:
+		c.requestID.Store(n - 1)
+	}
+}
+
+// VerifRetryConfig mirrors internal/retry.Config.
+type VerifRetryConfig struct {
+	MaxRetries     int
+	InitialBackoff time.Duration
+	BackoffFactor  float64
+	MaxBackoff     time.Duration
+}
+
+// VerifRetryExecute re-exports internal/retry.Execute.
+func VerifRetryExecute(ctx context.Context, op func() error, c *VerifRetryConfig) error {
+	if c == nil {
+		return retry.Execute(ctx, op, nil, "verif")
+	}
+	rc := retry.Config{MaxRetries: c.MaxRetries, InitialBackoff: c.InitialBackoff,
+		BackoffFactor: c.BackoffFactor, MaxBackoff: c.MaxBackoff}
+	return retry.Execute(ctx, op, &rc, "verif")
+}
+
+// VerifIsRetryable re-exports internal/retry.IsRetryableError.
+func VerifIsRetryable(err error) bool { return retry.IsRetryableError(err) }
+
+// VerifRetryValidate re-exports internal/retry.Config.Validate.
+func VerifRetryValidate(c VerifRetryConfig) VerifRetryConfig {
+	v := retry.Config{MaxRetries: c.MaxRetries, InitialBackoff: c.InitialBackoff,
+		BackoffFactor: c.BackoffFactor, MaxBackoff: c.MaxBackoff}.Validate()
+	return VerifRetryConfig{MaxRetries: v.MaxRetries, InitialBackoff: v.InitialBackoff,
+		BackoffFactor: v.BackoffFactor, MaxBackoff: v.MaxBackoff}
+}
+
+// VerifClientRetryConfig returns the retry configuration installed on a client (nil if none).
+func VerifClientRetryConfig(c *Client) *VerifRetryConfig {
+	if c.retryConfig == nil {
+		return nil
+	}
+	v := c.retryConfig
+	return &VerifRetryConfig{MaxRetries: v.MaxRetries, InitialBackoff: v.InitialBackoff,
+		BackoffFactor: v.BackoffFactor, MaxBackoff: v.MaxBackoff}
+}
